@@ -28,7 +28,10 @@ CONFIGS = [
     ("ga", "ga", {}, "GA on lists"),
     ("ga_array", "ga_array", {}, "GA on lists (array individuals, mu+lambda)"),
     ("ga_numpy", "ga_numpy", {}, "GA on lists (numpy individuals, mu,lambda)"),
+    ("ga_np_int8", "ga_np_int8", {}, "GA on lists (numpy int8 individuals)"),
+    ("ga_array_f", "ga_array_f", {}, "GA on lists (array('f') individuals)"),
     ("nsga2", "nsga2", {}, "NSGA-II"),
+    ("nsga2_np32", "nsga2_np32", {}, "NSGA-II (numpy float32 individuals)"),
     ("spea2", "spea2", {}, "SPEA2"),
     ("nsga3", "nsga3", {"nd": "log"}, "NSGA-III with memory"),
     ("nsga3_std", "nsga3", {"nd": "standard"}, "NSGA-III with memory"),
@@ -37,10 +40,14 @@ CONFIGS = [
     ("gp_typed_builtin", "gp_typed", {"variant": "builtin"}, "GP with ephemerals (typed, builtin types)"),
     ("gp_typed_heap", "gp_typed", {"variant": "heap"}, "GP with ephemerals (typed, user classes as types)"),
     ("cma", "cma", {}, "CMA-ES"),
+    ("cma_user", "cma", {"user": {"centroid": "ndarray"}}, "CMA-ES (user-supplied cmatrix and ndarray centroid)"),
+    ("cma_user_list", "cma", {"user": {"centroid": "list"}}, "CMA-ES (user-supplied cmatrix and list centroid)"),
     ("cma1pl", "cma1pl", {}, "(1+lambda)-CMA"),
+    ("cma1pl_user", "cma1pl", {"user": True}, "(1+lambda)-CMA (user-supplied parent object)"),
     ("cma_active", "cma_active", {}, "(1+lambda)-CMA (active, mixed-integer, constrained)"),
     ("mocma", "mocma", {"lambda_": 6}, "MO-CMA-ES"),
     ("mocma_l3", "mocma", {"lambda_": 3}, "MO-CMA-ES (lambda != mu)"),
+    ("mocma_user", "mocma", {"lambda_": 6, "user": True}, "MO-CMA-ES (user-supplied initial population objects)"),
     ("es", "es", {}, "GA on lists (evolution strategy, array individuals with a strategy attribute)"),
     ("islands", "islands", {}, "GA on lists (three demes, tools.migRing)"),
     ("ea_simple", "ealoops", {"loop": "simple"}, "GA on lists (algorithms.eaSimple, one call per generation)"),
@@ -164,22 +171,40 @@ def runtime_part(run, jobs):
         for j in range(run.scale(3, 12)):
             prm = ops.draw(rng)
             configs.append(("ga_ops", "ga_ops", prm, "GA on lists (operator sweep %s)" % "/".join(str(prm[k]) for k in sorted(prm))))
+    # corpus: minimised past misses, run first and in every tier (fixed seeds / generations / protocols)
+    corpus = []
+    cdir = os.path.join(vlib.VERIF, "corpus")
+    for fn in sorted(os.listdir(cdir)) if os.path.isdir(cdir) else []:
+        if fn.startswith("C17_") and fn.endswith(".json"):
+            with open(os.path.join(cdir, fn)) as f:
+                c = json.load(f)
+            if not only or c["cfg"] in only.split(","):
+                corpus.append(c)
     plan = []
     primary = {"ga", "nsga2", "spea2", "nsga3", "nsga3_comma", "gp", "cma", "cma1pl", "mocma"}
+    todo = [(c["cfg"], c["family"], c.get("params", {}), "corpus: " + c.get("what", c["cfg"]), 0, c) for c in corpus]
     for (cfg, fam, params, label) in configs:
         for si in range(nseeds if (thorough or cfg in primary) else 1):
-            seed = rng.randrange(1, 2 ** 31)
-            base = {"family": fam, "params": params, "seed": seed, "ngen": ngen}
-            ck = os.path.join(ckroot, "%s_%d" % (cfg, seed))
+            todo.append((cfg, fam, params, label, si, None))
+    for (cfg, fam, params, label, si, cor) in todo:
+        if True:
+            seed = cor["seed"] if cor else rng.randrange(1, 2 ** 31)
+            e_ngen = cor["ngen"] if cor else ngen
+            e_protocols = cor.get("protocols", protocols) if cor else protocols
+            kinds = set(cor.get("modes", ["rerun", "twice", "resume", "pool"])) if cor else {"rerun", "twice", "resume", "pool"}
+            base = {"family": fam, "params": params, "seed": seed, "ngen": e_ngen}
+            ck = os.path.join(ckroot, "%s_%d%s" % (cfg, seed, "_corpus" if cor else ""))
             os.makedirs(ck, exist_ok=True)
-            entry = {"cfg": cfg, "label": label, "base": base, "ck": ck, "seed": seed}
+            entry = {"cfg": cfg, "label": label, "base": base, "ck": ck, "seed": seed, "ngen": e_ngen, "protocols": e_protocols,
+                     "kinds": kinds}
             entry["ref"] = jobs.submit(dict(base, mode="full", keep_text=True))
+            entry["twice"] = jobs.submit(dict(base, mode="twice")) if "twice" in kinds else None
             h2 = str(rng.randrange(1, 2 ** 32 - 1))
             entry["rep"] = [(dict(hashseed=h2, perturb=p), jobs.submit(dict(base, mode="full", perturb=p), hashseed=h2))
-                            for p in ([1, 3, 6] if not thorough else [0, 1, 2, 3, 5, 6])]
-            entry["save"] = {k: jobs.submit(dict(base, mode="save", k=k, protocols=protocols, ckpt=ck))
-                             for k in range(0, ngen + 1)}
-            ws = pool_workers or sorted(rng.sample(range(1, 9), 3))
+                            for p in ([1, 3, 6] if not thorough else [0, 1, 2, 3, 5, 6])] if "rerun" in kinds else []
+            entry["save"] = {k: jobs.submit(dict(base, mode="save", k=k, protocols=e_protocols, ckpt=ck))
+                             for k in range(0, e_ngen + 1)} if "resume" in kinds else {}
+            ws = (pool_workers or sorted(rng.sample(range(1, 9), 3))) if "pool" in kinds else []
             entry["pool"] = []
             # mp/mp_imap/cf: forked workers; mp_spawn: workers are fresh interpreters that rebuild types, primitive set and
             # toolbox in an initializer; cf_thread: threads
@@ -201,7 +226,9 @@ def runtime_part(run, jobs):
         fam_cov = per_family.setdefault(cfg, {"label": e["label"], "seeds": 0, "fresh_reruns": 0, "resumes": 0,
                                               "pool_runs": 0, "tolerated_c16": 0})
         ref = e["ref"].result()
-        case0 = {"family": cfg, "params": e["base"]["params"], "seed": e["seed"], "ngen": ngen}
+        ngen = e["ngen"]
+        protocols = e["protocols"]
+        case0 = {"family": cfg, "family_key": e["base"]["family"], "params": e["base"]["params"], "seed": e["seed"], "ngen": ngen}
         if ref["res"] is None:
             run.broken.append({"kind": "harness_exception", "where": ["c17_families.py %s" % cfg], "log": ref["log"]})
             continue
@@ -225,6 +252,8 @@ def runtime_part(run, jobs):
             spec = dict(other["spec"], keep_text=True)
             spec.pop("out", None)
             again = jobs.submit(spec, hashseed=other.get("hashseed", "0")).result()["res"]
+            if again is not None and case.get("which") == "second":
+                again = dict(again, boundaries=again.get("boundaries_b", []))
             if again is not None and comp in COMPONENTS:
                 tb = bmap(again).get(g)
                 rb = bmap(ref).get(g)
@@ -236,6 +265,36 @@ def runtime_part(run, jobs):
             obs["replay_history"] = ("cd /verif && VERIF_REPO=%s /venv/bin/python harness/c17_replay.py '%s'"
                                      % (vlib.REPO, json.dumps({k: v for k, v in case.items() if k != "completion_orders"})))
             run.oracle_violation(what, case, observed=obs)
+
+        # (a0) the same process runs the evolution twice with the same seeds, the same toolbox / primitive set / classes
+        # and the SAME user-supplied argument objects (initial covariance matrix, centroid, parent, initial population,
+        # reference points); each run must equal the fresh-interpreter reference, and the arguments must keep their content
+        if e["twice"] is not None:
+            r = e["twice"].result()
+            case = dict(case0, mode="twice")
+            run.note_case(case, True)
+            if r["res"] is None or r["res"]["error"] is not None:
+                run.oracle_violation("running the evolution twice in one process fails although a single run did not", case,
+                                     observed=(r["res"] or {}).get("error") or r["log"])
+            else:
+                res = r["res"]
+                fam_cov["twice"] = fam_cov.get("twice", 0) + 1
+                shas = res.get("args_sha", [])
+                if len(set(shas)) > 1:
+                    run.oracle_violation("a run modifies the argument objects the caller supplied (content fingerprint before / after "
+                                         "run 1 / after run 2 differ), so a second run with the same objects starts from other inputs",
+                                         case, observed={"args_sha": shas,
+                                                         "replay_history": "cd /verif && VERIF_REPO=%s /venv/bin/python harness/c17_replay.py '%s'"
+                                                                           % (vlib.REPO, json.dumps(case))})
+                d = compare(ref, res)
+                if d or len(res["boundaries"]) != ngen + 1:
+                    report("twice", "first of two runs in one process differs from the run in a fresh interpreter", dict(case, which="first"),
+                           res, d or (ngen, "length"))
+                second = dict(res, boundaries=res.get("boundaries_b", []))
+                d = compare(ref, second)
+                if d or len(second["boundaries"]) != ngen + 1:
+                    report("twice", "identically seeded second run in the same process (same argument objects) differs from the first",
+                           dict(case, which="second"), second, d or (ngen, "length"))
 
         # (a) fresh interpreter again (other hash seed / other allocation history)
         for (var, fut) in e["rep"]:
@@ -329,7 +388,9 @@ def runtime_part(run, jobs):
         shutil.rmtree(e["ck"], ignore_errors=True)
 
     nonid = [o for o in orders_seen if list(o) != sorted(o)]
-    run.extra_cov["runtime_part"] = {"families": per_family, "generations": ngen, "protocols": protocols,
+    run.extra_cov["runtime_part"] = {"families": per_family, "generations": run.scale(5, 7),
+                                     "protocols": [0, 1, 2, 3, 4, 5] if thorough else [2, 5],
+                                     "corpus": [c.get("what", c["cfg"]) for c in corpus],
                                      "distinct_completion_orders": len(orders_seen),
                                      "completion_orders_not_submission_order": len(nonid),
                                      "subprocesses": jobs.launched, "blocked": blocked,
